@@ -575,3 +575,5 @@ REGISTRY["C02"]["partial_clauses"] = list(REGISTRY["C02"]["partial_clauses"]) + 
 # C14 (parallel / serial drivers = the single runs): state that a solve leaves behind between the calls of one process decides whether the serial
 # drivers' results stay what the single runs returned (seeded change C14v sat in a solver helper and broke no table of C14)
 _add_bodies("C14", ["solver_steady_state", "solver_ivp"])
+
+REGISTRY["C10"]["theorems"] += T("Proofs.C10c", "BLDFM.C10", ["increments_telescope", "marched_eq_direct", "marched_depends_only_on_level"])
